@@ -443,6 +443,10 @@ fn sign1_history(ctx: &mut Ctx) {
     let aad2 = other_than(ctx, &rec.aad);
     let (seen, _) = run(&m, &aad2, &rec.detached, None);
     check_perturbed(ctx, "Sign1", "external AAD", seen.map(|x| x.1), &rec, &hist);
+    // an external AAD that is itself the structure the creator was handed is still a different AAD
+    let aad3 = rec.data.clone();
+    let (seen, _) = run(&m, &aad3, &rec.detached, None);
+    check_perturbed(ctx, "Sign1", "external AAD (replaced by the structure itself)", seen.map(|x| x.1), &rec, &hist);
     if let Some(p) = &rec.detached {
         let p2 = Some(other_than(ctx, p));
         let (seen, _) = run(&m, &rec.aad, &p2, None);
@@ -681,6 +685,9 @@ fn sign_history(ctx: &mut Ctx) {
         let aad2 = other_than(ctx, &rec.aad);
         let (seen, _) = run(&m, i, &aad2, &rec.detached);
         check_perturbed(ctx, "Sign", "external AAD", seen.map(|x| x.1), rec, &hist);
+        let aad3 = rec.data.clone();
+        let (seen, _) = run(&m, i, &aad3, &rec.detached);
+        check_perturbed(ctx, "Sign", "external AAD (replaced by the structure itself)", seen.map(|x| x.1), rec, &hist);
         let mut m2 = m.clone();
         let _ = perturb_protected(ctx, &mut m2.signatures[i].protected);
         let (seen, _) = run(&m2, i, &rec.aad, &rec.detached);
@@ -914,6 +921,9 @@ fn mac_history(ctx: &mut Ctx, is0: bool) {
     let aad2 = other_than(ctx, &rec.aad);
     let (seen, _) = run(&m, &aad2, None);
     check_perturbed(ctx, fam, "external AAD", seen.map(|x| x.1), &rec, &hist);
+    let aad3 = rec.data.clone();
+    let (seen, _) = run(&m, &aad3, None);
+    check_perturbed(ctx, fam, "external AAD (replaced by the structure itself)", seen.map(|x| x.1), &rec, &hist);
     let m2 = match &m {
         M::M(x) => {
             let mut y = x.clone();
@@ -1179,6 +1189,9 @@ fn enc_history(ctx: &mut Ctx, kind: usize) {
     let aad2 = other_than(ctx, &rec.aad);
     let (seen, _) = run(&m, rc, &aad2, Ok(vec![]));
     check_perturbed(ctx, fam, "external AAD", seen.map(|x| x.1), &rec, &hist);
+    let aad3 = rec.data.clone();
+    let (seen, _) = run(&m, rc, &aad3, Ok(vec![]));
+    check_perturbed(ctx, fam, "external AAD (replaced by the structure itself)", seen.map(|x| x.1), &rec, &hist);
     if kind == 2 {
         let (seen, _) = run(&m, (rc + 1) % 3, &rec.aad, Ok(vec![]));
         check_perturbed(ctx, fam, "recipient context", seen.map(|x| x.1), &rec, &hist);
